@@ -387,7 +387,18 @@ fn tie(args: &Args, report: &mut Report, rng: &mut Rng, inputs: &[(String, Strin
 }
 
 /// predicate names for the known C05 findings (computed from the input only)
+/// a `---|` union continuation and a `---@` tag written on one physical line (only mutation produces it)
+fn alias_continuation_shares_line_with_tag(text: &str) -> bool {
+    text.lines().any(|l| {
+        let t = l.trim_start();
+        (t.starts_with("---@") && t.contains("---|")) || (t.starts_with("---|") && t.contains("---@"))
+    })
+}
+
 pub fn classify5(text: &str, cfg: &LuaFormatConfig) -> Option<&'static str> {
+    if alias_continuation_shares_line_with_tag(text) {
+        return Some("alias-continuation-and-tag-on-one-line");
+    }
     use emmylua_parser::{LuaParseErrorKind, LuaParser, ParserConfig};
     let tree = LuaParser::parse(text, ParserConfig::with_level(level_of(cfg)));
     if !tree.has_syntax_errors() && tree.get_errors().iter().any(|e| e.kind == LuaParseErrorKind::DocError) {
@@ -448,6 +459,9 @@ pub fn classify6(text: &str, cfg: &LuaFormatConfig) -> Option<&'static str> {
     }
     if tree.get_errors().iter().any(|e| e.kind == emmylua_parser::LuaParseErrorKind::DocError) {
         return Some("input-has-doc-annotation-syntax-error");
+    }
+    if alias_continuation_shares_line_with_tag(text) {
+        return Some("alias-continuation-and-tag-on-one-line");
     }
     // narrow findings: one or two options interacting with one construct
     if cfg.comments.line_comment_min_column > 0
